@@ -51,7 +51,11 @@ EvEvaluate(e) ==
 PartialPoint(m, p) ==
   LET I == PairsFn(p.interp)          \* leaf ids only; values are sub-ranges or constants
       res == PairsFn(p.res_all)
-      compl == { a \in Box(m) : \A i \in DOMAIN I \cap DOMAIN a : InIv(a[i], I[i]) }
+      \* completions: a leaf the interpretation mentions ranges over what the interpretation says (also beyond its declared bounds),
+      \* every other leaf over its declared bounds
+      lids == LeafIds(m)
+      compl == RangeProduct(lids, [ i \in lids |-> IF i \in DOMAIN I THEN I[i][1] ELSE LeafLo(m, i) ],
+                                  [ i \in lids |-> IF i \in DOMAIN I THEN I[i][2] ELSE LeafHi(m, i) ])
   IN Fail("dom_ok", DOMAIN res \subseteq Ids(m) /\ m.id \in DOMAIN res)
      \cup Fail("sound", \A a \in compl : \A id \in DOMAIN res \cap Ids(m) :
                            \A x \in { x \in Flat(m) : x.id = id } : InIv(Pt(x, a), res[id]))
@@ -148,6 +152,20 @@ EvAssume(e) ==
      \cup Fail("bounds_contain", \A x \in Flat(r) : (x.id \notin DOMAIN D /\ x.id \in Ids(m)) =>
                   \A a \in compl : \A y \in { y \in Flat(m) : y.id = x.id } :
                       InIv(Iv(y, Merge(AsIv(a), compD))[1], <<x.lo, x.hi>>) /\ InIv(Iv(y, Merge(AsIv(a), compD))[2], <<x.lo, x.hi>>))
+     \cup Fail("ids_kept", Ids(r) \subseteq Ids(m) /\ r.id = m.id)
+
+\* leaves with ranges too wide to enumerate: the recorded interpretations of the remaining leaves are judged one by one, and the
+\* library's own evaluation of the union is held against the specified one (both of the library's paths could be wrong alike)
+EvAssumeWide(e) ==
+  LET m == e.model
+      D == PairsFn(e.dict)
+      r == e.res
+      rests == { PairsFn(e.points[i].rest) : i \in DOMAIN e.points }
+  IN IF ~InDomain(m) THEN {"outside_domain"} ELSE
+     Fail("rest_complete", e.points # <<>> /\ \A a \in rests : DOMAIN a = LeafIds(m) \ DOMAIN D)
+     \cup Fail("equiv_union", \A i \in DOMAIN e.points : e.points[i].ev_assumed = e.points[i].ev_union)
+     \cup Fail("equiv_struct", \A i \in DOMAIN e.points : LET a == PairsFn(e.points[i].rest) IN
+                                   /\ Iv(r, a) = Iv(m, Merge(D, a)) /\ e.points[i].ev_union = Iv(m, Merge(D, a)))
      \cup Fail("ids_kept", Ids(r) \subseteq Ids(m) /\ r.id = m.id)
 
 (* ---- C08: reduce -------------------------------------------------------------- *)
@@ -371,6 +389,7 @@ Verdict(e) ==
      [] e.op = "to_poly2"  -> EvToPoly2(e)
      [] e.op = "negate"    -> EvNegate(e)
      [] e.op = "assume"    -> EvAssume(e)
+     [] e.op = "assume_wide" -> EvAssumeWide(e)
      [] e.op = "reduce"    -> EvReduce(e)
      [] e.op = "errors"    -> EvErrors(e)
      [] e.op = "build"     -> EvBuild(e)
